@@ -5,6 +5,21 @@
 //   q B|N w1 w2 ...                      walk; per word and per class:
 //        word  F:probbits len indep olen owords obackoffbits  G:(FullScoreForgotState, same 6)  S:(GetState: olen owords obo)
 // One output line per op; class segments separated by " ## ", word records by " | ".
+#include <cstdio>
+#include <cstdlib>
+#include <cstring>
+#include <iostream>
+#include <sstream>
+#include <string>
+#include <vector>
+#include <map>
+#include <algorithm>
+#include <limits>
+#include <memory>
+#include <stdexcept>
+// H3 of DESIGN §7 without a source hook: the harness (only) may look at the private search structure
+#define private public
+#define protected public
 #include "lm/model.hh"
 #include "lm/enumerate_vocab.hh"
 #include "lm/lm_exception.hh"
@@ -39,7 +54,39 @@ struct Opts {
 struct AnyModel {
   virtual ~AnyModel() {}
   virtual std::string Walk(const std::string &start, const std::vector<std::string> &ws) = 0;
+  virtual std::string Enum(const std::vector<std::string> &ws) = 0;
 };
+
+// enumerate one entry of a HashedSearch through its lookups: raw prob bits (sign = "does not extend left"),
+// raw backoff bits (+0/-0 kept), rest bits
+template <class Search> std::string EnumHashed(const Search &search, const std::vector<lm::WordIndex> &rev, unsigned order, bool rest) {
+  typename Search::Node node;
+  bool indep; uint64_t ext;
+  char buf[96];
+  typename Search::UnigramPointer uni(search.LookupUnigram(rev[0], node, indep, ext));
+  if (rev.size() == 1) {
+    snprintf(buf, sizeof buf, "1 %08x %08x %08x", fbits(uni.to_->prob), fbits(uni.to_->backoff), fbits(uni.Rest()));
+    return buf;
+  }
+  for (size_t i = 1; i < rev.size(); ++i) {
+    if (i + 1 == order) {
+      typename Search::LongestPointer l(search.LookupLongest(rev[i], node));
+      if (i + 1 != rev.size() || !l.Found()) return "0";
+      snprintf(buf, sizeof buf, "1 %08x - -", fbits(*l.to_));
+      return buf;
+    }
+    typename Search::MiddlePointer m(search.LookupMiddle(i - 1, rev[i], node, indep, ext));
+    if (!m.Found()) return "0";
+    if (i + 1 == rev.size()) {
+      snprintf(buf, sizeof buf, "1 %08x %08x %08x", fbits(m.to_->prob), fbits(m.to_->backoff), fbits(m.Rest()));
+      return buf;
+    }
+  }
+  return "0";
+}
+template <class M> std::string EnumModel(const M &, const std::vector<lm::WordIndex> &) { return "-"; }
+inline std::string EnumModel(const ProbingModel &m, const std::vector<lm::WordIndex> &rev) { return EnumHashed(m.search_, rev, m.Order(), false); }
+inline std::string EnumModel(const RestProbingModel &m, const std::vector<lm::WordIndex> &rev) { return EnumHashed(m.search_, rev, m.Order(), true); }
 
 template <class M> struct Holder : public AnyModel {
   Names names;
@@ -74,6 +121,11 @@ template <class M> struct Holder : public AnyModel {
     char buf[64];
     snprintf(buf, sizeof buf, "%08x %u %d ", fbits(r.prob), (unsigned)r.ngram_length, (int)r.independent_left);
     return std::string(buf) + StateStr(out);
+  }
+  std::string Enum(const std::vector<std::string> &ws) {
+    std::vector<lm::WordIndex> rev;
+    for (size_t i = ws.size(); i-- > 0; ) rev.push_back(m->GetVocabulary().Index(ws[i]));
+    return EnumModel(*m, rev);
   }
   std::string Walk(const std::string &start, const std::vector<std::string> &ws) {
     State s = (start == "B") ? m->BeginSentenceState() : m->NullContextState();
@@ -167,6 +219,19 @@ int main() {
       for (size_t i = 0; i < models.size(); ++i) {
         if (i) out << " ## ";
         out << models[i].first << ": " << models[i].second->Walk(start, ws);
+      }
+      puts(out.str().c_str());
+    } else if (op == "e") {
+      std::vector<std::string> ws; std::string w;
+      while (in >> w) ws.push_back(w);
+      std::ostringstream out;
+      bool first = true;
+      for (size_t i = 0; i < models.size(); ++i) {
+        std::string r = models[i].second->Enum(ws);
+        if (r == "-") continue;
+        if (!first) out << " ## ";
+        first = false;
+        out << models[i].first << ": " << r;
       }
       puts(out.str().c_str());
     } else {
